@@ -133,6 +133,7 @@ type fakeNode struct {
 
 	handlerCalls int
 	cancelAnswer []bool
+	cancelTimes  []time.Time // virtual time of every CancelBlockRequest call
 }
 
 func (n *fakeNode) ID() uuid.UUID { return n.id }
@@ -146,8 +147,10 @@ func (n *fakeNode) request(handler bitcoin_reader.HandleBlock, onStop bitcoin_re
 }
 
 func (n *fakeNode) CancelBlockRequest(ctx context.Context, hash bitcoin.Hash32) bool {
+	vsched.Yield() // the real node takes its own lock here and may have to wait: a free switch
 	n.mu.Lock()
 	defer n.mu.Unlock()
+	n.cancelTimes = append(n.cancelTimes, vsched.Now())
 	if !n.requested {
 		n.cancelAnswer = append(n.cancelAnswer, false)
 		return false
